@@ -81,7 +81,16 @@ pub fn build_spec(c: &XzCase) -> Result<XzSpec, String> {
     let mut blocks = Vec::new();
     for b in &c.blocks {
         let enc = write_lzma2(&b.chunks, false)?;
-        let p = (dict_prop_for(enc.output.len()) + b.dict_extra % 6).min(30);
+        // mostly the smallest sufficient property (+0..5); sometimes the largest legal values
+        let p = match b.dict_extra {
+            0..=5 => (dict_prop_for(enc.output.len()) + b.dict_extra).min(30),
+            6 => 31,
+            7 => 35,
+            8 => 37,
+            9 => 38,
+            10 => 39,
+            _ => 40,
+        };
         blocks.push(XzBlock {
             has_packed: b.has_packed,
             has_unpacked: b.has_unpacked,
@@ -102,7 +111,7 @@ fn abs_block(max_chunks: usize, max_ops: usize) -> impl Strategy<Value = AbsBloc
         any::<bool>(),
         any::<bool>(),
         prop_oneof![6 => Just(0u8), 3 => 1u8..4, 1 => 4u8..=255],
-        0u8..6,
+        prop_oneof![8 => 0u8..6, 1 => 6u8..14],
         abs_chunks(max_chunks, max_ops, 30, false),
     )
         .prop_map(|(has_packed, has_unpacked, extra_pad4, dict_extra, chunks)| AbsBlock {
